@@ -18,6 +18,7 @@
 #ifndef VERIF_ENGINE_CLASSES_C13X_HH
 #define VERIF_ENGINE_CLASSES_C13X_HH 1
 #include "engine/classes.hh"
+#include <algorithm>
 #include "interfaces/interfaced_boxes.hh"      // Z_Box, Double_Box and their interval policies
 
 namespace vf {
@@ -208,16 +209,21 @@ inline void add_recycle_constraint_ops(ClassAdapter<D>& A, bool same_as_copying 
     [same_as_copying](D& d, const Congruence_System& s) { if (same_as_copying) d.add_congruences(s); else { Congruence_System t(s); d.add_recycled_congruences(t); } }, cfresh);
 }
 
-// ---- limited extrapolations: (y, cs) with y == receiver and / or cs == the receiver's own constraints
+// ---- limited extrapolations: (y, cs) with y == receiver and / or cs == the receiver's own constraints.
+// With cs = receiver.constraints() every constraint of cs is satisfied by the receiver x, so the result is
+// widen(x, y) /\ x = x whatever the representation: compared by value with the call on a copy of cs.
+// With cs = y.constraints() (a reference into the const argument, which the operation minimizes) the result
+// depends on WHICH constraints describe y (redundant ones included), which is not part of y's value: the call is
+// made on a copy of the receiver and only has to be safe (sanitizers) and to leave y's value alone.
 template <class D, class F>
 inline void add_limited(ClassAdapter<D>& A, const std::string& nm, F f, bool all_forms = true) {
   typedef Mut<D> M;
-  if (all_forms) A.muts.push_back(M(nm + "(arg,arg.constraints())", true, [f](D& d, const D* a) { if (!widen_pre(d, a)) return std::string("skipped"); f(d, *a, a->constraints(), (unsigned*)0); return std::string(); }));
   alias_pair(A, nm + "(arg,receiver.constraints())", true, [f](D& d, const D* a, bool al) {
     if (!widen_pre(d, a)) return std::string("skipped");
     if (al) f(d, *a, d.constraints(), (unsigned*)0); else { Constraint_System cs(d.constraints()); f(d, *a, cs, (unsigned*)0); }
     return std::string(); });
-  if (all_forms) A.muts.push_back(M(nm + "(arg,arg.minimized_constraints(),tokens=1)", true, [f](D& d, const D* a) { if (!widen_pre(d, a)) return std::string("skipped"); unsigned t = 1; f(d, *a, a->minimized_constraints(), &t); return std::to_string(t); }));
+  if (all_forms) A.muts.push_back(M(nm + "(arg,arg.constraints()) on a copy of the receiver", true, [f](D& d, const D* a) { if (!widen_pre(d, a)) return std::string("skipped"); D t(d); f(t, *a, a->constraints(), (unsigned*)0); return b2s(t.OK()); }, true));
+  if (all_forms) A.muts.push_back(M(nm + "(arg,arg.minimized_constraints(),tokens=1) on a copy of the receiver", true, [f](D& d, const D* a) { if (!widen_pre(d, a)) return std::string("skipped"); D t(d); unsigned tk = 1; f(t, *a, a->minimized_constraints(), &tk); return b2s(t.OK()); }, true));
 }
 template <class D, class F>
 inline void add_widening(ClassAdapter<D>& A, const std::string& nm, F f, bool plain = true) {
@@ -311,12 +317,12 @@ inline void add_domain_specific(ClassAdapter<PPL::Grid>& A, const PPL::Grid*) {
     int k = ls[i].k; std::string nm = ls[i].n;
     std::function<void(D&, const D&, const Congruence_System&, unsigned*)> f = [k](D& d, const D& a, const Congruence_System& cs, unsigned* t) {
       if (k == 0) d.limited_congruence_extrapolation_assign(a, cs, t); else if (k == 1) d.limited_generator_extrapolation_assign(a, cs, t); else d.limited_extrapolation_assign(a, cs, t); };
-    A.muts.push_back(M(nm + "(arg,arg.congruences())", true, [f](D& d, const D* a) { if (!widen_pre(d, a)) return std::string("skipped"); f(d, *a, a->congruences(), (unsigned*)0); return std::string(); }));
+    A.muts.push_back(M(nm + "(arg,arg.congruences()) on a copy of the receiver", true, [f](D& d, const D* a) { if (!widen_pre(d, a)) return std::string("skipped"); D t(d); f(t, *a, a->congruences(), (unsigned*)0); return b2s(t.OK()); }, true));
     alias_pair(A, nm + "(arg,receiver.congruences())", true, [f](D& d, const D* a, bool al) {
       if (!widen_pre(d, a)) return std::string("skipped");
       if (al) f(d, *a, d.congruences(), (unsigned*)0); else { Congruence_System cs(d.congruences()); f(d, *a, cs, (unsigned*)0); }
       return std::string(); });
-    A.muts.push_back(M(nm + "(arg,arg.minimized_congruences(),tokens=1)", true, [f](D& d, const D* a) { if (!widen_pre(d, a)) return std::string("skipped"); unsigned t = 1; f(d, *a, a->minimized_congruences(), &t); return std::to_string(t); }));
+    A.muts.push_back(M(nm + "(arg,arg.minimized_congruences(),tokens=1) on a copy of the receiver", true, [f](D& d, const D* a) { if (!widen_pre(d, a)) return std::string("skipped"); D t(d); unsigned tk = 1; f(t, *a, a->minimized_congruences(), &tk); return b2s(t.OK()); }, true));
   }
   // modulus forms with both expressions bound to one object
   Linear_Expression e = x + y;
@@ -397,6 +403,43 @@ inline void ps_bhz03(PPL::Pointset_Powerset<PPL::Grid>& d, const PPL::Pointset_P
 inline void ps_bgp99(PPL::Pointset_Powerset<PPL::Rational_Box>& d, const PPL::Pointset_Powerset<PPL::Rational_Box>& a) { d.BGP99_extrapolation_assign(a, PPL::widen_fun_ref(&PPL::Rational_Box::widening_assign), 2); }
 inline void ps_bhz03(PPL::Pointset_Powerset<PPL::Rational_Box>& d, const PPL::Pointset_Powerset<PPL::Rational_Box>& a) { d.BHZ03_widening_assign<PPL::H79_Certificate>(a, PPL::widen_fun_ref(&PPL::Rational_Box::widening_assign)); }
 
+// The powerset extrapolations work on the SYNTACTIC powerset (which disjuncts, in which order), which is not part
+// of the value (omega-reduction is a lazy const operation; geometric equality is the value).  They are applied to
+// canonical forms: omega-reduced, disjuncts ordered by a semantic key (affine dimension and the suprema /
+// infima of A, B, A+B, A-B), so that the outcome is a function of the values.
+template <class P> inline std::string disjunct_key(const P& p) {
+  Variable x(0), y(1);
+  std::string k = std::to_string(p.space_dimension()) + ":" + std::to_string(p.affine_dimension());
+  if (p.space_dimension() < 2) return k;
+  Linear_Expression es[4] = { Linear_Expression(x), Linear_Expression(y), x + y, x - y };
+  for (int i = 0; i < 4; ++i) for (int s = 0; s < 2; ++s) {
+    Coefficient n, d; bool m;
+    bool b = s ? p.maximize(es[i], n, d, m) : p.minimize(es[i], n, d, m);
+    if (b) { mpq_class q(n, d); q.canonicalize(); k += "|" + q.get_str() + (m ? "!" : "~"); } else k += "|inf";
+  }
+  return k;
+}
+template <class P> inline PPL::Pointset_Powerset<P> canonical_powerset(const PPL::Pointset_Powerset<P>& ps) {
+  typedef PPL::Pointset_Powerset<P> D;
+  ps.omega_reduce();
+  std::vector<std::pair<std::string, P> > ds;
+  for (typename D::const_iterator i = ps.begin(); i != ps.end(); ++i) ds.push_back(std::make_pair(disjunct_key(i->pointset()), i->pointset()));
+  std::stable_sort(ds.begin(), ds.end(), [](const std::pair<std::string, P>& a, const std::pair<std::string, P>& b) { return a.first < b.first; });
+  D r(ps.space_dimension(), PPL::EMPTY);
+  for (size_t i = 0; i < ds.size(); ++i) r.add_disjunct(ds[i].second);
+  return r;
+}
+template <class P, class F>
+inline std::string canonical_widen(PPL::Pointset_Powerset<P>& d, const PPL::Pointset_Powerset<P>* a, F f) {
+  typedef PPL::Pointset_Powerset<P> D;
+  if (d.space_dimension() != a->space_dimension()) return std::string("skipped");
+  D cx = canonical_powerset(d);
+  if (a == &d) { f(cx, cx); }                                  // aliased: y is the receiver itself
+  else { D cy = canonical_powerset(*a); if (!cy.definitely_entails(cx)) return std::string("skipped"); f(cx, cy); }
+  d.m_swap(cx);
+  return std::string();
+}
+
 template <class P>
 inline void add_powerset_extras(ClassAdapter<PPL::Pointset_Powerset<P> >& A) {
   typedef PPL::Pointset_Powerset<P> D; typedef Mut<D> M;
@@ -406,13 +449,14 @@ inline void add_powerset_extras(ClassAdapter<PPL::Pointset_Powerset<P> >& A) {
     for (int k = 0; k < 3; ++k) { P a(2); a.refine_with_constraint(x >= k); a.refine_with_constraint(x <= k + 2); a.refine_with_constraint(y >= 0); a.refine_with_constraint(y <= 1 + k % 2); d->add_disjunct(a); }
     d->omega_reduce(); return d; })));
   add_same_expression_ops(A, true);
-  A.muts.push_back(M("BGP99_extrapolation_assign(arg,widening,2)", true, [](D& d, const D* a) { if (d.space_dimension() != a->space_dimension() || (a != &d && !a->definitely_entails(d))) return std::string("skipped"); ps_bgp99(d, *a); return std::string(); }));
-  A.muts.push_back(M("BHZ03_widening_assign(arg,widening)", true, [](D& d, const D* a) { if (d.space_dimension() != a->space_dimension() || (a != &d && !a->definitely_entails(d))) return std::string("skipped"); ps_bhz03(d, *a); return std::string(); }));
+  A.muts.push_back(M("BGP99_extrapolation_assign(arg,widening,2) on canonical forms", true, [](D& d, const D* a) { return canonical_widen(d, a, [](D& x, const D& y) { ps_bgp99(x, y); }); }));
+  A.muts.push_back(M("BHZ03_widening_assign(arg,widening) on canonical forms", true, [](D& d, const D* a) { return canonical_widen(d, a, [](D& x, const D& y) { ps_bhz03(x, y); }); }));
+  A.muts.push_back(M("BGP99_extrapolation_assign(arg,widening,2) on a copy of the receiver", true, [](D& d, const D* a) { if (d.space_dimension() != a->space_dimension() || (a != &d && !a->definitely_entails(d))) return std::string("skipped"); D t(d); ps_bgp99(t, *a); return b2s(t.OK()); }, true));
+  A.muts.push_back(M("BHZ03_widening_assign(arg,widening) on a copy of the receiver", true, [](D& d, const D* a) { if (d.space_dimension() != a->space_dimension() || (a != &d && !a->definitely_entails(d))) return std::string("skipped"); D t(d); ps_bhz03(t, *a); return b2s(t.OK()); }, true));
   alias_pair(A, "add_disjunct(last of own disjuncts)", false, [](D& d, const D*, bool al) {
     if (d.begin() == d.end()) return std::string("skipped");
     typename D::const_iterator i = d.begin(), n = i; for (++n; n != d.end(); ++n) i = n;
     if (al) d.add_disjunct(i->pointset()); else { P c(i->pointset()); d.add_disjunct(c); } return std::string("done"); });
-  A.muts.push_back(M("assign(D(first disjunct of arg))", true, [](D& d, const D* a) { if (a->begin() == a->end()) return std::string("skipped"); d = D(a->begin()->pointset()); return std::string(); }));
   A.muts.push_back(M("upper_bound_assign_if_exact", true, [](D& d, const D* a) { return b2s(d.upper_bound_assign_if_exact(*a)); }));
   A.muts.push_back(M("drop_disjuncts(begin,end)", false, [](D& d, const D*) { d.drop_disjuncts(d.begin(), d.end()); return std::string(); }));
   A.muts.push_back(M("m_swap(copy of arg)", true, [](D& d, const D* a) { D t(*a); d.m_swap(t); d.m_swap(d); return std::string(); }));
